@@ -102,6 +102,19 @@ def phase_a(seed, tier, i, st):
                                     ("highs-wrapper", "exit_minus1"), ("none", "ok")])
         steps.insert(0, {"triples": warm, "op": "dot_bracket", "via": "property", "backend": backend,
                          "fault": {"kind": kind, "assign": "none", "tie": 0}, "unjudged": True})
+    if knotted and i % 4 == 1:
+        # history on ONE object: conversions that ended in the first-come-first-served fallback (no solver given,
+        # a solver that fails) must not make a later conversion with a healthy solver sub-optimal.  Only explicit
+        # convert_to_dot_bracket(solver) calls come first - BpSeq.dot_bracket memoises its first answer by design,
+        # so it is asked last.
+        first = cfg.choice([("none", "ok"), ("sim-api", "raise_before"), ("sim-api", "status_infeasible"),
+                            ("cbc-wrapper", "no_sol_file"), ("highs-wrapper", "timelimit_no_solution")])
+        obj = {"triples": st["triples"], "op": "dot_bracket", "object": "same"}
+        steps.append(dict(obj, via="argument", backend=first[0], fault={"kind": first[1], "assign": "full", "tie": 0},
+                          unjudged=True))
+        steps.append(dict(obj, via="argument", backend=cfg.choice(["sim-api", "cbc-wrapper"]),
+                          fault={"kind": "ok", "tie": cfg.randrange(1 << 12)}))
+        steps.append(dict(obj, via="property", backend="sim-api", fault={"kind": "ok", "tie": cfg.randrange(1 << 12)}))
     return {"property": NAME, "family": st["family"], "steps": steps}
 
 
